@@ -232,7 +232,7 @@ def main():
         "n_prior_samples / randomize_prior_order / n_batches are documented as file-path options and are not demanded on in_memory=True",
         "numpy's uniform is trusted to be uniform; the check decides which draws are used and how",
     ]
-    return chk.finish()
+    return chk.finish(run_case)
 
 
 def replay(doc):
